@@ -19,8 +19,8 @@ from interp import Arr, SymArr, Tup, Unknown, BOT, Opaque, FuncRef, ModRef, Pred
 class Spec:
     """Fourier-layout typestate over the last two axes."""
 
-    def __init__(self, layout, full=None, cut=(ZERO, ZERO)):
-        self.layout, self.full, self.cut = layout, full, tuple(cut)
+    def __init__(self, layout, full=None, cut=None):
+        self.layout, self.full, self.cut = layout, full, (tuple(cut) if cut is not None else None)
 
     def with_(self, **kw):
         s = Spec(self.layout, self.full, self.cut)
@@ -99,7 +99,7 @@ def merge_meta(I, a, b, node):
     meta = {}
     for v in (a, b):
         if isinstance(v, Arr):
-            for k in ("spec", "field", "lvl0"):
+            for k in ("spec", "field", "lvl0", "kept", "respec_pad", "analysis_of"):
                 if k in v.meta:
                     if k == "spec" and "spec" in meta and meta["spec"].layout != v.meta["spec"].layout:
                         I.event("typestate", node, "binary operation on arrays in different Fourier layouts (%s vs %s)" % (meta["spec"].layout, v.meta["spec"].layout))
@@ -317,7 +317,7 @@ def load(I, arr, idx, node, env):
             return base.at(items[0] + ONE) - base.at(items[0])
     shape = []
     val = arr.val
-    meta = {k: v for k, v in arr.meta.items() if k in ("spec", "field", "lvl0", "real", "pending_level", "level_written")}
+    meta = {k: v for k, v in arr.meta.items() if k in ("spec", "field", "lvl0", "real", "pending_level", "level_written", "kept", "respec_pad", "analysis_of")}
     axis = 0
     gax = grid_axes(arr)
     point = {}
@@ -344,10 +344,11 @@ def load(I, arr, idx, node, env):
                             I.event("typestate", node, "spectral truncation by slicing in natural (unshifted) layout")
                         elif not lo.eq(dim - hi):
                             I.event("typestate", node, "asymmetric spectral window [%r:%r] on an axis of length %r" % (lo, hi, dim))
-                        cut = list(spec.cut)
+                        cut = list(spec.cut or (ZERO, ZERO))
                         cut[k] = cut[k] + lo
                         spec = spec.with_(cut=tuple(cut))
                         meta["spec"] = spec
+                        I.event("spec-truncate", node, {"axis": k, "lo": lo, "hi": hi, "dim": dim})
                     if axis in gax and field is not None:
                         k = gax.index(axis)
                         f2 = dict(field)
@@ -938,7 +939,7 @@ def np_pad(I, args, kwargs, node):
         I.event("shape", node, "pad_width has %d pairs for an array of %d dimensions" % (len(pairs), x.ndim))
         return Unknown("np.pad rank")
     shape = tuple(d + b + a for d, (b, a) in zip(x.shape, pairs))
-    meta = {k: v for k, v in x.meta.items() if k in ("spec", "field", "lvl0", "param", "role")}
+    meta = {k: v for k, v in x.meta.items() if k in ("spec", "field", "lvl0", "param", "role", "kept")}
     zero_pad = mode == "constant" and isinstance(cv, Expr) and cv.is_zero()
     spec = x.meta.get("spec")
     gax = grid_axes(x)
@@ -947,18 +948,21 @@ def np_pad(I, args, kwargs, node):
     if spec is not None:
         if spec.layout != "cen":
             I.event("typestate", node, "zero-padding of a spectrum in natural (unshifted) layout")
-        cut = list(spec.cut)
+        cut = list(spec.cut) if spec.cut is not None else None
         for k, ax in enumerate(gax):
             b, a = pairs[ax]
             if not b.eq(a):
                 I.event("typestate", node, "asymmetric spectral padding (%r, %r)" % (b, a))
-            cut[k] = cut[k] - b
+            if cut is not None:
+                cut[k] = cut[k] - b
         for ax in range(x.ndim):
             if ax not in gax and not (pairs[ax][0].is_zero() and pairs[ax][1].is_zero()):
                 I.event("typestate", node, "padding along a non-spectral axis")
         if not zero_pad:
             I.event("typestate", node, "spectral padding with a non-zero constant")
-        meta["spec"] = spec.with_(cut=tuple(cut))
+        meta["spec"] = spec.with_(cut=tuple(cut) if cut is not None else None)
+        meta["kept"] = tuple(x.shape[ax] for ax in gax)
+        meta["respec_pad"] = tuple(pairs[ax] for ax in gax)
         return Arr(shape, x.val, x.dtype, meta)
     # spatial padding of a field
     meta["padded"] = {"widths": tuple(pairs), "zero": zero_pad, "mode": mode, "value": cv, "of": x}
@@ -1207,20 +1211,21 @@ def fft_family(direction):
             if direction == "inv":
                 name = "i" + name
             coeff = alg.fn(name, srcsym, widths[-2][0], widths[-1][0], ny, nx)
-            meta = {"spec": Spec("nat", (ny, nx)), "analysis_of": (src, pad, direction, norm)}
+            meta = {"spec": Spec("nat", (ny, nx), (ZERO, ZERO)), "analysis_of": {"src": src, "pad": pad, "dir": direction, "norm": norm, "scale": scale, "N": (ny, nx), "where": "%s:%s" % (I.cur_mod.name, node.lineno)}}
             return Arr(x.shape, coeff * scale, "complex128", meta)
         # synthesis from a spectrum
         if spec is None:
             spec = Spec("nat", None)
         if spec.layout != "nat":
             I.event("typestate", node, "transform applied to a spectrum in centred layout (missing ifftshift)")
-        for c in spec.cut:
+        for c in (spec.cut or ()):
             if not c.is_zero():
                 I.event("typestate", node, "transform applied to a spectrum whose truncation was not undone (cut %r)" % (c,))
         basis = alg.sym("basis0:%s" % direction if I.ctx == "mean" else "basis:%s" % direction)
         v = x.val
         val = v * scale * basis if isinstance(v, Expr) else v
-        field = {"synth": {"dir": direction, "scale": scale, "norm": norm, "coeff": v, "N": (ny, nx), "lvl0": x.meta.get("lvl0")}, "crop": (ZERO, ZERO)}
+        field = {"synth": {"dir": direction, "scale": scale, "norm": norm, "coeff": v, "N": (ny, nx), "lvl0": x.meta.get("lvl0"),
+                           "kept": x.meta.get("kept"), "respec_pad": x.meta.get("respec_pad"), "where": "%s:%s" % (I.cur_mod.name, node.lineno)}, "crop": (ZERO, ZERO)}
         meta = {"field": field}
         if "lvl0" in x.meta and isinstance(x.meta["lvl0"], Expr):
             meta["lvl0"] = x.meta["lvl0"] * scale * basis
